@@ -1,7 +1,7 @@
 """C19 — linear systems are solved to backward-stable accuracy; singular ones stand out.
 
 Proof side : Libvna.Props.C19 — exact-arithmetic correctness of the elimination model (see DESIGN §6 C19).
-Tie        : Model/LinAlg.lean is executed (IEEE doubles) against the compiled _vnacommon_* kernels.
+Tie        : Model/LinAlg.lean is executed (IEEE doubles) against the compiled _vnacommon_* kernels (LU, the three LU solvers, Householder QR solve).
 Oracle     : row-wise relative residual of the system in extended precision, invariant under row order and
              row scaling; normal-equation residual for least squares; exactly singular inputs must come back
              non-finite or astronomically large (directly and through the n-port conversions).
@@ -16,8 +16,12 @@ THEOREMS = ['Libvna.LU.' + t for t in ('sum_split3', 'lu_of_recurrence', 'forwar
     ['Libvna.LULoop.' + t for t in ('get_set', 'dotSub_eq', 'upper_spec', 'lower_spec', 'swapRows_spec', 'scaleCol_spec', 'col_step_fun',
                                     'colStep_spec', 'luLoop_inv', 'luLoop_full', 'lu_factors', 'lu_det',
                                     'fwdCol_spec', 'backCol_spec', 'solveCols_spec', 'colSolved_solves', 'mldivide_solves', 'minverse_inverts', 'ztoyn_relation',
-                                    'mrFwd_spec', 'mrBack_spec', 'mrRows_spec', 'rowSolved_solves', 'mrdivide_solves')]
-FILES = ['Model/LinAlg.lean', 'Props/C19.lean', 'Props/C19Loop.lean', 'Props/C19Solve.lean']
+                                    'mrFwd_spec', 'mrBack_spec', 'mrRows_spec', 'rowSolved_solves', 'mrdivide_solves')] + \
+    ['Libvna.QR.' + t for t in ('reflector_unitary', 'reflector_annihilates', 'alpha_choice', 'normal_eq_minimises')] + \
+    ['Libvna.QRLoop.' + t for t in ('colLoop_spec', 'divCol_spec', 'colUpd_spec', 'reflectCols_spec', 'qrdStep_fun', 'hh_range', 'qrdStep_inv', 'qrdLoop_inv',
+                                    'qrd_factors', 'normal_of_qr', 'applyQ_spec', 'qrBack_spec', 'qrCols_spec', 'qrsolve_normal', 'complexOps_spec',
+                                    'qrsolve_least_squares')]
+FILES = ['Model/LinAlg.lean', 'Props/C19.lean', 'Props/C19Loop.lean', 'Props/C19Solve.lean', 'Props/C19QR.lean']
 LD = np.clongdouble
 
 
@@ -87,7 +91,7 @@ def run(chk):
     rng = random.Random(chk.seed * 104729 + 19)
     broken = []
     if THEOREMS:
-        c15.proof_side(chk, ['Libvna.Props.C19', 'Libvna.Props.C19Loop', 'Libvna.Props.C19Solve'], THEOREMS, FILES, broken)
+        c15.proof_side(chk, ['Libvna.Props.C19', 'Libvna.Props.C19Loop', 'Libvna.Props.C19Solve', 'Libvna.Props.C19QR'], THEOREMS, FILES, broken)
     chk.trusted += ['Props/C19.lean is partial: the step from the imperative loops to the recurrences is tied by correspondence only',
                     'backward stability / rounding: measured (row-wise relative residual in extended precision), not proved']
     chk.checker_cmd = 'cd lean && lake build Libvna.Props.C19 && #print axioms'
@@ -232,7 +236,7 @@ def run(chk):
             g = np.abs(Al.conj().T @ (Al @ Xl - Bl))
             s = np.abs(Al.conj().T) @ (np.abs(Al) @ np.abs(Xl) + np.abs(Bl))
             res = float((g / np.where(s > 0, s, 1)).max())
-        cond = np.linalg.cond(A) if op != 'qrsolve' else 1.0
+        cond = np.linalg.cond(A)
         key = op + '/' + kind
         worst[key] = max(worst.get(key, 0.0), res)
         if not np.isfinite(res) or res > TOL:
@@ -241,7 +245,7 @@ def run(chk):
         else:
             chk.count('ok_' + key)
             chk.distinct.add((key, idx))
-        if mout is not None and op != 'qrsolve':
+        if mout is not None:
             # compare the solutions, not the bits: relative to conditioning
             mw, cw = mout[idx].split(), line.split()
             if 'X' in mw and 'X' in cw:
